@@ -48,14 +48,11 @@ func mutateAll(c *core.Ctx, r *rand.Rand, base string, b baseCase, gen *tuple, f
 	// ---- signature bit flips
 	nbits := len(sig) * 8
 	var bits []int
-	allBits := gen.Key.Family != "RSA" || c.Thorough()
+	// thorough: every bit of every signature. quick: every bit of Ed25519 signatures and of the
+	// ECDSA P-256 empty-message cases; first/last four bytes plus a sample otherwise.
+	allBits := c.Thorough() || gen.Key.Family == "Ed25519" ||
+		(gen.Key.Family == "ECDSA" && b.Msg == 0 && curveName(b.Key.EC.Curve) == "P-256")
 	if !full {
-		allBits = false
-	}
-	if gen.Key.Family == "ECDSA" && !c.Thorough() && b.Msg != 0 && curveName(b.Key.EC.Curve) != "P-256" {
-		allBits = false // quick tier: every bit for the empty-message case and for P-256, a sample otherwise
-	}
-	if gen.Key.Family == "DSA" && !c.Thorough() && b.Msg != 0 {
 		allBits = false
 	}
 	if allBits {
